@@ -1,10 +1,18 @@
 #!/bin/sh
-# MANIFEST.setup_cmd: full .vo build of the Coq development (offline, from files on disk)
-set -e
-cd "$(dirname "$0")"
-/venv/bin/python - <<'PY'
+# MANIFEST.setup_cmd: full .vo build of the Coq development (offline, from files on disk).
+# A file that fails to compile must not block the other properties (its own check then reports
+# the broken obligation), hence `make -k`; only a failure of the shared base is fatal here.
+cd "$(dirname "$0")" || exit 1
+/venv/bin/python - <<'PY' || exit 1
 import sys; sys.path.insert(0, "tools")
 from lib import vlib
 vlib.write_coq_project()
 PY
-cd coq && timeout 3000 make -j16
+cd coq || exit 1
+timeout 3300 make -k -j16 > ../.setup.log 2>&1
+rc=$?
+tail -5 ../.setup.log
+test -f Base/Corr.vo || { echo "setup: Base/Corr.vo was not built"; exit 1; }
+n=$(find . -name '*.vo' | wc -l); m=$(find . -name '*.v' | wc -l)
+echo "setup: make exit $rc; $n of $m files compiled"
+exit 0
